@@ -229,8 +229,99 @@ def valid(text):
     """operands must fit the precision (the property's premise); also used by the shrinker"""
     t = text.split()
     b, p = int(t[1], 16), int(t[3], 16)
+    if t[0] == "rfract":
+        # Round::round_fract's own precondition: |fract| < B^precision
+        return len(t) == 6 and abs(core.unhx(t[5])) < b ** p
+    if t[0].startswith("mulp_") or t[0].startswith("divp_"):
+        # each operand fits the precision of its own context
+        return len(t) == 9 and p >= 1 and int(t[8], 16) >= 1 and ndigits(core.unhx(t[4]), b) <= p and ndigits(core.unhx(t[6]), b) <= int(t[8], 16)
+    if t[0].startswith("mulprim_") or t[0].startswith("divprim_"):
+        # the primitive operand gets the precision of its own digit count
+        return len(t) == 8 and p >= 1 and t[7] == "0" and ndigits(core.unhx(t[4]), b) <= p
     sigs = [t[4]] + ([t[6]] if len(t) > 6 else [])
     return p >= 1 and all(ndigits(core.unhx(x), b) <= p for x in sigs)
+
+
+LOG2_MILLI = {2: 1000, 3: 1585, 5: 2322, 7: 2807, 8: 3000, 10: 3322, 16: 4000, 36: 5170}
+
+
+def gen_rfract(rng, tier, big):
+    """Round::round_fract called directly: low parts at / next to / within a few thousandths (in log2) of one half,
+    at precisions whose bit size runs through the range where the f32 products lose the 0.001 margin"""
+    b = rng.choice([2, 3, 5, 7, 8, 10, 16, 36])
+    if big:
+        bits = rng.range(10000, 60000)
+        if tier == "thorough" and rng.chance(1, 12):
+            bits = rng.range(60000, 400000)
+        if rng.chance(1, 6):
+            # just around the powers of two where the f32 spacing doubles
+            bits = rng.choice([8192, 16384, 32768, 65536]) + rng.range(-40, 40)
+    else:
+        bits = rng.range(1, 300)
+    k = max(1, bits * 1000 // LOG2_MILLI[b])
+    bk = b ** k
+    half = bk // 2
+    t = rng.below(7)
+    if t == 0:
+        f = half + rng.choice([0, 0, 1, -1, 2, -2])
+    elif t == 1 or t == 2:
+        # |log2(2 f) - k log2 B| ~ j * 1.4e-6: from far inside the 0.001 margin to well outside it
+        j = rng.choice([1, -1]) * rng.range(1, rng.choice([50, 700, 1500, 40000]))
+        f = (bk * ((1 << 20) + j)) >> 21
+    elif t == 3:
+        f = half + rng.choice([1, -1]) * (1 << rng.below(max(1, bk.bit_length() - 1)))
+    elif t == 4:
+        f = rng.range(1, bk - 1) if bk > 2 else 1
+    elif t == 5:
+        f = rng.choice([1 + rng.below(3), bk - 1 - rng.below(3)])
+    else:
+        f = 1 << max(0, bk.bit_length() - 1 - rng.below(3))
+    f = min(max(f, 1), bk - 1)
+    if rng.chance(1, 50):
+        f = 0
+    i = rng.choice([0, 1, 2, 3, -1, -2, -3, 7, 8, -7, -8, rng.range(-1000, 1000)])
+    return "rfract %x %s %x %s %s" % (b, rng.choice(MODES), k, hx(i), hx(rng.choice([1, -1]) * f))
+
+
+def gen_two_prec(rng, tier, b):
+    """FBig * FBig and FBig / FBig whose operands carry different precisions (Context::max)"""
+    p1, p2 = precisions(rng, tier), precisions(rng, tier)
+    d1 = min(rng.choice([1, 2, max(1, p1 - 1), p1, p1]), p1)
+    d2 = min(rng.choice([1, 2, max(1, p2 - 1), p2, p2]), p2)
+    s1, s2 = gen_sig(rng, b, d1), gen_sig(rng, b, d2)
+    if rng.chance(1, 40):
+        s2 = 0
+    if rng.chance(1, 40):
+        s1 = 0
+    e1 = rng.choice([0, 1, -3, 17, -300, 300])
+    e2 = rng.choice([0, -1, 4, -17, 299, -301])
+    op = rng.choice(["mulp", "divp"]) + "_" + rng.choice(["vv", "vr", "rv", "rr", "assign"])
+    return "%s %x %s %x %s %s %s %s %x" % (op, b, rng.choice(MODES), p1, hx(rng.choice([1, -1]) * s1), hx(e1),
+                                          hx(rng.choice([1, -1]) * s2), hx(e2), p2)
+
+
+def gen_prim(rng, tier, b, p):
+    """float (op) primitive / big integer and the mirrored forms: the integer is converted by FBig::from first"""
+    d1 = min(rng.choice([1, 2, max(1, p - 1), p, p]), p)
+    s1 = gen_sig(rng, b, d1)
+    k = rng.below(6)
+    if k == 0:
+        n = rng.range(0, 9)
+    elif k == 1:
+        n = b ** rng.range(0, 12) * rng.range(1, b)          # trailing zero digits: Repr::new strips them
+    elif k == 2:
+        n = rng.range(1, 1 << 62)
+    elif k == 3:
+        n = rng.range(1 << 63, 1 << 130)                     # beyond i64: the IBig operand forms
+    else:
+        n = gen_sig(rng, b, rng.choice([1, 2, p, p + 1, 2 * p + 1]))
+    if rng.chance(1, 30):
+        n = 0
+    if rng.chance(1, 40):
+        s1 = 0
+    e1 = rng.choice([0, 1, -3, 17, -300, 300])
+    op = rng.choice(["mulprim_fi", "mulprim_if", "divprim_fi", "divprim_if"])
+    return fmt(op, b, rng.choice(MODES), p, rng.choice([1, -1]) * s1, e1, rng.choice([1, -1]) * n, 0)
 
 
 def gen_cases(rng, tier, n):
@@ -245,18 +336,28 @@ def gen_cases(rng, tier, n):
 
 def gen_cases_raw(rng, tier, n):
     out = []
+    # the large round_fract cases are long (up to 100 kB each): a fixed share, not a percentage of a large n
+    nbig = min(max(n // 60, 40), 3000 if tier == "thorough" else 350)
+    for _ in range(nbig):
+        out.append(gen_rfract(rng, tier, True))
     while len(out) < n:
         b = rng.choice(BASES)
         p = precisions(rng, tier)
         k = rng.below(100)
-        if k < 45:
+        if k < 40:
             out.append(gen_addsub(rng, tier, b, p))
-        elif k < 60:
+        elif k < 53:
             out.append(gen_mul(rng, tier, b, p))
-        elif k < 68:
+        elif k < 60:
             out.append(gen_unary(rng, tier, b, p))
-        elif k < 86:
+        elif k < 76:
             out.append(gen_div(rng, tier, b, p))
+        elif k < 81:
+            out.append(gen_two_prec(rng, tier, b))
+        elif k < 86:
+            out.append(gen_prim(rng, tier, b, p))
+        elif k < 88:
+            out.append(gen_rfract(rng, tier, False))
         else:
             out.append(gen_sqrt(rng, tier, b, p))
     return out
